@@ -108,8 +108,8 @@ std::vector<std::vector<double>> Compute_Gauss_Legendre_Roots_and_Weights(unsign
 
 	double eps			= 1.0e-14;
 	int m				= (n + 1) / 2;
-	double x_middle		= 0.5 * (x_max + x_min);
-	double x_half_width = 0.5 * (x_max - x_min);
+	double x_middle		= 0.5 * x_max + 0.5 * x_min;	// halving first: the sum and the difference of the limits may exceed the largest double
+	double x_half_width = 0.5 * x_max - 0.5 * x_min;
 
 	for(int i = 0; i < m; i++)
 	{
